@@ -222,3 +222,18 @@ Section Lev.
       rewrite Hrows by (ll). unfold l1, l2. f_equal. f_equal; lia.
   Qed.
 End Lev.
+
+(* sanity of the specification: a word is at distance 0 from itself *)
+Lemma lev_rec_diag w : forall n, (n <= List.length w)%nat -> lev_rec w w n n = 0%N.
+Proof.
+  induction n as [|n IH]; intros H; [reflexivity|].
+  destruct (nth_error w n) as [c|] eqn:E; [|apply nth_error_None in E; lia].
+  rewrite (lev_rec_SS w w n n c c E E). rewrite N.eqb_refl. apply IH. lia.
+Qed.
+
+Theorem levenshtein_self : forall w, levenshtein w w = POk 0%N.
+Proof. intros w. rewrite levenshtein_refines. f_equal. apply lev_rec_diag. lia. Qed.
+
+(* ... and at distance |w| from the empty word *)
+Theorem levenshtein_empty_r : forall w, levenshtein w [] = POk (N.of_nat (List.length w)).
+Proof. intros w. rewrite levenshtein_refines. reflexivity. Qed.
